@@ -9,8 +9,8 @@ the runtime), and ties the threads' program counters to the channel's view: a wr
 source holds a region; the sink's reader is mapped only while the sink (or the client's flush) holds a region, and the
 sink's bookkeeping (`idx`, `len`) is the reader's stream position and region length.
 
-It is stated for streams whose camera delivers no empty frames (an empty frame makes the source abort and then unmap — a
-commit without a mapped write is outside the channel's usage rules) and for clients that keep the monitoring API's usage rule.
+It is stated for clients that keep the monitoring API's usage rule. Cameras that hand out empty frames are covered: the source
+aborts that write and then unmaps, and an unmap with nothing in flight is within the channel's rules and changes nothing (`Idle`).
 Scripted camera failures are covered: a failing `camera_get_frame` leaves the write region mapped for good, and the next
 acquisition's first `channel_write_map` replaces it, which is within the rules (`Op.wf`).
 -/
@@ -53,19 +53,22 @@ structure DUse (s : Nat) (st : Stream) (cl : Client) : Prop where
   filt : st.filtCh = freshChan st.filtCh.c.cap
   nrd : (cv st.sinkCh).nrd = if st.monReg then 2 else 1
   /-- a failed `camera_get_frame` sends the source straight to its exit (a scripted fault is the only way to fail) -/
-  nofail : st.src.pc ≠ .abortLock ∧ (st.cam.failAt = none → st.cam.failed = false) ∧ (st.src.pc = .failStop → st.cam.failed = true) ∧
+  nofail : (st.cam.emptyEvery = 0 → st.src.pc ≠ .abortLock) ∧ (st.cam.failAt = none → st.cam.failed = false) ∧ (st.src.pc = .failStop → st.cam.failed = true) ∧
       (st.cam.failed = true → st.src.pc = .failStop ∨ ((st.src.pc = .finalize ∨ st.src.pc = .done) ∧ st.cam.state ≠ .running))
   camrun : st.src.pc ≠ .done → st.cam.failed = false → st.cam.state = .running
   camrun8 : stage cl.pc s = 8 → st.cam.state = .running ∧ st.cam.failed = false
   /-- while the source holds a region a write is pending (after a failed `camera_get_frame` the region stays mapped for good:
   the next `channel_write_map` simply replaces it) -/
-  pend : srcHold st.src.pc = true → (cv st.sinkCh).pending = true
+  pend : srcHold st.src.pc = true → (cv st.sinkCh).pending = true ∨ (st.src.pc = .commitLock ∧ st.src.cur = none)
   wlen : srcHold st.src.pc = true → (cv st.sinkCh).wlen = st.F
   rd0 : (cv st.sinkCh).m0 = true → snkHold st.snk.pc = true ∨ clHolds0 cl.pc s = true
   rd0pos : snkHold st.snk.pc = true → (cv st.sinkCh).i0 = st.snk.idx ∧ (cv st.sinkCh).l0 = st.snk.len
   mon : (cl.pc = .mapLock s ∨ clFlush1Free cl.pc s = true) → st.monReg = true → (cv st.sinkCh).m1 = false
   mon1 : clFlush1 cl.pc s = true → st.monReg = true
   fl0 : clHolds0 cl.pc s = true → (cv st.sinkCh).m0 = decide (0 < cl.flushLen)
+  /-- after the source has aborted the write of an empty frame nothing of a write is in flight: its `channel_write_unmap`
+  (the source unmaps unconditionally) changes nothing -/
+  idle : st.src.pc = .commitLock → st.src.cur = none → Idle st.sinkCh
 
 @[simp] theorem cv_pending (s : Sys) : (cv s).pending = s.pending := rfl
 @[simp] theorem cv_wlen (s : Sys) : (cv s).wlen = s.wlen := rfl
@@ -73,8 +76,13 @@ structure DUse (s : Nat) (st : Stream) (cl : Client) : Prop where
 @[simp] theorem cv_nrd (s : Sys) : (cv s).nrd = s.rds.length := rfl
 @[simp] theorem cv_acc (s : Sys) : (cv s).acc = s.c.accepting := rfl
 
-/-- the invariant, with its premises: the camera delivers no empty frames, the client has not broken a usage rule -/
+/-- a premise that is always true (`rfl`) and mentions a field of the stream record that no action changes: the proof scripts
+of the client families use it to tell which stream an instance of the invariant is about -/
+def Here (st : Stream) : Prop := st.cam.emptyEvery = st.cam.emptyEvery
+theorem Here.intro (st : Stream) : Here st := rfl
+
+/-- the invariant, with its premise: the client has not broken a usage rule -/
 def DUseP (s : Nat) (st : Stream) (cl : Client) : Prop :=
-  st.cam.emptyEvery = 0 → cl.misused = false → DUse s st cl
+  Here st → cl.misused = false → DUse s st cl
 
 end AcqVerif.Runtime
